@@ -15,6 +15,19 @@ PROPS = {
                     "metamorphic stream only", "float literals: differential against strconv only",
                     "string-literal unescaping: differential only"],
     },
+    "C15": {
+        "gens": [],
+        "lean": "Anko.Props.C15",
+        "streams": [{"name": "lex", "n_quick": 2500, "n_thorough": 50000}],
+        "trusted": ["goyacc and its LALR driver (the generated parser is exercised, not modelled)",
+                    "the scanner model lean/Anko/Model/Scanner.lean mirrors parser/lexer.go (validated each run: every token kind, literal, line:column and the first "
+                    "error of every generated ASCII text)",
+                    "the reflective AST dumper tools/internal/astser/dump.go (all fields + positions)"],
+        "assumptions": ["the model reads ASCII texts; unicode.IsLetter on other runes is not modelled (such texts go through the implementation-side oracles only)",
+                        "(nil, nil) from ParseSrc is the empty tree; it is accepted only for texts whose tokens are all separators"],
+        "partial": ["termination and position theorems are about the scanner; termination of the LALR driver and the shape of trees (concatenation, no carried-over "
+                    "value-stack slots) are decided by the oracle stream only", "lex_concat (token stream of a + newline + b) is not yet a theorem"],
+    },
     "C13": {
         "gens": ["EnvLocks"],
         "lean": "Anko.Props.C13",
@@ -180,6 +193,19 @@ MANIFEST_TEXT = {
         "note": "Trusted: Lean kernel; goyacc (LALR tables not modelled); the grammar extractor (regex over parser.go.y, closed shapes). Follows fix a4e6d85 (-0b literals).",
         "technique": "Lean 4 proof (precedence-climbing round trip by induction on trees; decide over regenerated table) + metamorphic parser correspondence",
         "design_ref": "DESIGN.md section 6 (C03)",
+    },
+    "C15": {
+        "text": "Machine-checked proofs (Lean 4) over a function-by-function model of the scanner (lexer.go): for EVERY text no scanning loop "
+                "runs out of fuel (each iteration advances the cursor, including the back()-and-retry loop of block comments and the escape "
+                "handling of strings), the cursor/line bookkeeping invariant is kept by next() and by every use of back(), every token "
+                "other than EOF consumes input, and every position handed to the parser - of a token or of the first error - is a position of "
+                "the text: line within the text's lines, column at most one past the end of that line; an error-free run ends with EOF. "
+                "Correspondence: real Scanner vs model token by token (kind, literal, line:column, error) on generated programs, mutations, "
+                "token soups. Search/oracle on ParseSrc: panic/timeout guard, error type, position range, same tree on re-parse and under 16 "
+                "concurrent parses, concatenation of texts that parse = concatenation of statement lists with shifted positions.",
+        "note": "Trusted: Lean kernel; goyacc (not modelled); scanner-model fidelity (differential); AST dumper. Unicode letters outside ASCII are outside the model.",
+        "technique": "Lean 4 proof (scanner invariant + progress by induction on fuel) + differential token correspondence + metamorphic parser oracles",
+        "design_ref": "DESIGN.md section 6 (C15)",
     },
     "C13": {
         "text": "Machine-checked (Lean 4): (1) `decide` over lock-region facts REGENERATED from env/*.go on every run - every access of an Env "
